@@ -26,6 +26,8 @@ BindOK(e) ==
        \* no target ever holds another column's data: it holds its own column's data, or what it held before, or nothing
        /\ e.after[i].data \in {r.targets[i].data, e.targets[i].data, "empty"}
        /\ (r.ok /\ e.err = "" => e.after[i].data = r.targets[i].data)
+       \* an inferring target (enum definitions, DateTime64 precision) that was bound has adopted the server's parameters
+       /\ (r.ok /\ e.err = "" /\ Len(e.block) > 0 => e.after[i].adopted)
 LineOK == CASE Ev.ev = "Pair" -> PairOK(Ev) [] Ev.ev = "Infer" -> InferOK(Ev) [] Ev.ev = "InferTotal" -> TotalOK(Ev)
             [] Ev.ev = "Bind" -> BindOK(Ev) [] OTHER -> FALSE
 Init == l = 1
